@@ -73,3 +73,15 @@
 ; lemma-axiom (proved in specs/lemmas/quorum_sums.smt2): an empty id list selects no weight
 (assert (forall ((ids Slice_BS) (a (Array Int S_interfaces_CommitteeMember)) (n Int))
   (! (=> (<= (len_Slice_BS ids) 0) (= (SWP (MemPred ids a) a n) 0)) :pattern ((SWP (MemPred ids a) a n)))))
+;; section leaderfn
+; the value a leader-computing function value returns for a view (function values are opaque references)
+;; spec LeaderFn (Int Int) BS
+(declare-fun LeaderFn (Int Int) BS)
+;; section wire
+; A-MB-RT: canonical membuffers encoding of a BlockRef as a function of its five fields
+;; spec BlockRefBytes (Int Int Int Int Str) Str
+(declare-fun BlockRefBytes (Int Int Int Int Str) Str)
+;; section spi_axioms
+;; provides Commits
+; A-SPI: no block satisfies the empty hash (ValidateBlockCommitment / ValidateBlockProposal reject it)
+(assert (forall ((bu Iface) (h Int) (b Iface) (x Str)) (! (=> (Commits bu h b x) (> (strlen x) 0)) :pattern ((Commits bu h b x)))))
